@@ -32,7 +32,7 @@ Proof. apply wrap32_idem. Qed.
 
 (* ---- unfolding equations ---- *)
 Section Eqns.
-  Variables (strict : bool) (w : world) (fuel : nat).
+  Variables (strict : mode) (w : world) (fuel : nat).
   Notation exec := (exec strict w fuel).
   Notation exec_block := (exec_block strict w fuel).
 
@@ -130,7 +130,7 @@ Qed.
 
 (* ---- frame: a statement only assigns its binders ---- *)
 Section Frame.
-  Variables (strict : bool) (w : world) (fuel : nat).
+  Variables (strict : mode) (w : world) (fuel : nat).
   Notation exec := (exec strict w fuel).
   Notation exec_block := (exec_block strict w fuel).
 
@@ -146,7 +146,7 @@ Section Frame.
   Proof.
     apply stmt_stmts_ind2.
     - (* SBin *) intros x op e1 e2 en tr. cbn.
-      destruct (strict && ovf op _ _); cbn; [exact I|].
+      destruct (chk strict op && ovf op _ _); cbn; [exact I|].
       destruct (rt_binop op _ _); cbn; [|exact I].
       intros y Hy. destruct (N.eqb_spec y x) as [->|]; [exfalso; auto | reflexivity].
     - intros x e en tr. cbn. intros y Hy. destruct (N.eqb_spec y x) as [->|]; [exfalso; auto | reflexivity].
@@ -211,36 +211,36 @@ Proof.
 Qed.
 
 Lemma strict_is_wrapping w fuel :
-  (forall s en tr, not_ovf (exec true w fuel s en tr) -> exec false w fuel s en tr = exec true w fuel s en tr) /\
-  (forall ss en tr, not_ovf (exec_block true w fuel ss en tr) ->
-                    exec_block false w fuel ss en tr = exec_block true w fuel ss en tr).
+  (forall s en tr, not_ovf (exec All w fuel s en tr) -> exec Wrap w fuel s en tr = exec All w fuel s en tr) /\
+  (forall ss en tr, not_ovf (exec_block All w fuel ss en tr) ->
+                    exec_block Wrap w fuel ss en tr = exec_block All w fuel ss en tr).
 Proof.
   apply stmt_stmts_ind2; try (intros; reflexivity).
   - intros x op e1 e2 en tr. cbn. destruct (ovf op _ _); cbn; [tauto | reflexivity].
   - intros c s1 s2 fas H1 H2 en tr. rewrite !exec_SIf. destruct (cond _) as [[|]|]; auto.
-    + intros Hn. rewrite H1; [reflexivity|]. destruct (exec_block true w fuel s1 en tr); cbn in *; auto.
-    + intros Hn. rewrite H2; [reflexivity|]. destruct (exec_block true w fuel s2 en tr); cbn in *; auto.
+    + intros Hn. rewrite H1; [reflexivity|]. destruct (exec_block All w fuel s1 en tr); cbn in *; auto.
+    + intros Hn. rewrite H2; [reflexivity|]. destruct (exec_block All w fuel s2 en tr); cbn in *; auto.
   - intros c inv ss H en tr. rewrite !exec_SSIf. destruct (cond _) as [b|]; auto. destruct (xorb b inv); auto.
   - intros lvs ss bc H en tr. rewrite !exec_SWhile. intros Hn.
-    rewrite (loop_ext (exec_block true w fuel ss) (exec_block false w fuel ss)); auto.
-    destruct (loop (exec_block true w fuel ss) _ _ _ _); cbn in *; auto.
+    rewrite (loop_ext (exec_block All w fuel ss) (exec_block Wrap w fuel ss)); auto.
+    destruct (loop (exec_block All w fuel ss) _ _ _ _); cbn in *; auto.
   - intros s r Hs Hr en tr. rewrite !exec_block_cons. intros Hn.
-    rewrite Hs by (destruct (exec true w fuel s en tr); cbn in *; auto).
-    destruct (exec true w fuel s en tr); auto.
+    rewrite Hs by (destruct (exec All w fuel s en tr); cbn in *; auto).
+    destruct (exec All w fuel s en tr); auto.
 Qed.
 
 Theorem strict_done_wrapping w f args fuel v tr :
-  sem true w f args fuel = Done v tr -> sem false w f args fuel = Done v tr.
+  sem All w f args fuel = Done v tr -> sem Wrap w f args fuel = Done v tr.
 Proof.
   unfold sem. intros H. destruct (strict_is_wrapping w fuel) as [_ Hb].
-  rewrite Hb; [exact H|]. destruct (exec_block true w fuel (f_body f) _ _); cbn; auto; discriminate.
+  rewrite Hb; [exact H|]. destruct (exec_block All w fuel (f_body f) _ _); cbn; auto; discriminate.
 Qed.
 
 (* ---- invariance under injective renaming of variables (DESIGN C02 item 9) ---- *)
 Section Alpha.
   Variable r : name -> name.
   Hypothesis r_inj : forall x y, r x = r y -> x = y.
-  Variables (strict : bool) (w : world) (fuel : nat).
+  Variables (strict : mode) (w : world) (fuel : nat).
 
   Definition ren_env (en : env) : env := map (fun p => (r (fst p), snd p)) en.
   Definition ren_res (o : res) : res :=
@@ -295,7 +295,7 @@ Section Alpha.
                       ren_res (exec_block strict w fuel ss en tr)).
   Proof.
     apply stmt_stmts_ind2.
-    - intros x op e1 e2 en tr. cbn. rewrite !eval_ren. destruct (strict && ovf op _ _); [reflexivity|].
+    - intros x op e1 e2 en tr. cbn. rewrite !eval_ren. destruct (chk strict op && ovf op _ _); [reflexivity|].
       destruct (rt_binop op _ _); reflexivity.
     - intros x e en tr. cbn. now rewrite eval_ren.
     - intros x p e en tr. cbn. now rewrite eval_ren.
